@@ -225,12 +225,20 @@ OBLIGATIONS = [
          encodes=['UploadSubmissionTask._submit', 'requires_multipart_upload', 'CopySubmissionTask._submit',
                   'yield_upload_part_bodies', 'CopyPartTask ranges'], assumptions=['S1', 'S2', 'A3', 'A4']),
     dict(id='C14.4d', impl='decision', params='size: int, thr: int, chunk: int',
-         cases=[('download',), ('legacy-download',), ('processpool',)],
+         cases=[('download',), ('legacy-download',)],
          pre=['0 <= size', '1 <= thr', '1 <= chunk <= 8192', 'size <= 3 * chunk'],
          splits=[['size < thr'], ['size == thr'], ['size > thr', 'size <= chunk'], ['size > thr', 'size > chunk']],
          timeout=(170, 900),
-         bounds='<= 3 parts of <= 8 KiB; size / threshold symbolic incl. equality; process pool with threshold = chunk',
-         encodes=['DownloadSubmissionTask._submit', 'S3Transfer._download_file', 'GetObjectSubmitter._submit_get_object_jobs'],
+         bounds='<= 3 parts of <= 8 KiB; size / threshold symbolic incl. equality',
+         encodes=['DownloadSubmissionTask._submit', 'S3Transfer._download_file'],
+         assumptions=['S1', 'S2']),
+    dict(id='C14.4p', impl='decision', params='size: int, thr: int, chunk: int',
+         cases=[('processpool',)],
+         pre=['0 <= size', 'thr == chunk', '1 <= chunk <= 8192', 'size <= 3 * chunk'],
+         splits=[['size < thr'], ['size == thr'], ['size > thr']],
+         timeout=(170, 900),
+         bounds='<= 3 parts of <= 8 KiB; process pool (its threshold is the chunk size); size symbolic incl. equality',
+         encodes=['GetObjectSubmitter._submit_get_object_jobs', 'GetObjectWorker._do_run'],
          assumptions=['S1', 'S2']),
     dict(id='C14.6', groups=[], impl='constants', params='dummy: int', pre=['0 <= dummy <= 2 ** 52'], timeout=(30, 60),
          bounds='none', encodes=['s3transfer.utils constants'], assumptions=[]),
